@@ -72,6 +72,9 @@ type FuncReport struct {
 	Aborted    string   `json:"aborted,omitempty"`
 	Vacuity    []string `json:"vacuity,omitempty"`
 	Unreached  []string `json:"unreached_blocks,omitempty"` // blocks of the function no explored path entered
+	Blocks     int      `json:"blocks"`
+	BlocksIn   int      `json:"blocks_entered"`
+	BlocksDead int      `json:"blocks_declared_dead,omitempty"`
 	SolverErrs []string `json:"solver_errors,omitempty"`
 	obligs     []*Oblig
 	trusted    []string
@@ -314,7 +317,12 @@ func verifyFunc(P *Program, name string, tier Tier, outDir string, known []Known
 	}
 	if x.aborted == "" {
 		for _, b := range fn.Blocks {
-			if b.Index == 0 || x.visited[b] || b.Comment == "recover" {
+			if b.Comment == "recover" {
+				continue
+			}
+			rep.Blocks++
+			if b.Index == 0 || x.visited[b] {
+				rep.BlocksIn++
 				continue
 			}
 			pos := ""
@@ -336,6 +344,7 @@ func verifyFunc(P *Program, name string, tier Tier, outDir string, known []Known
 				}
 			}
 			if tolerated {
+				rep.BlocksDead++
 				continue
 			}
 			rep.Unreached = append(rep.Unreached, fmt.Sprintf("block %d (%s) %s", b.Index, b.Comment, pos))
